@@ -201,16 +201,17 @@ def roundtrip_plan(seed, n_general, n_polar):
 
 def roundtrip_header(kind, hseed, polar):
     rng = random.Random(hseed)
+    invkeys = hseed % 3 != 0          # a third of the SIP headers come without the optional AP_ORDER / BP_ORDER keywords
     if polar >= 0:
         nx, ny = L.NAXIS
         hdr = L.realistic_header(rng, kind, crval=(rng.choice([0.0, 359.9999999, rng.uniform(0, 360)]), POLAR[polar]),
-                                 crpix=(rng.uniform(1, nx), rng.uniform(1, ny)))
+                                 crpix=(rng.uniform(1, nx), rng.uniform(1, ny)), invkeys=invkeys)
         px = L.image_pixels(rng, hdr, extra=1)
         px.append((hdr["crpix1"], hdr["crpix2"]))
         for _ in range(3):
             px.append((hdr["crpix1"] + rng.uniform(-40, 40), hdr["crpix2"] + rng.uniform(-40, 40)))
     else:
-        hdr = L.realistic_header(rng, kind)
+        hdr = L.realistic_header(rng, kind, invkeys=invkeys)
         px = L.image_pixels(rng, hdr, extra=2)
     return hdr, px
 
@@ -384,8 +385,10 @@ def obs_scalar(args):
 
 
 # ---- call histories ---------------------------------------------------------------------------------------------
-HIST_P = (700.25, 1800.5)
-HIST_Q = (1500.5, 300.25)
+# the arguments depend on the position in the sequence (four different pixels / sky targets), so that a
+# buffer left behind by an earlier call (root-finder target, first guess, a cached result) is observable
+HIST_PIX = [(700.25, 1800.5), (1500.5, 300.25), (12.0, 4000.75), (2040.5, 2048.0)]
+HIST_SKYPIX = [(1500.5, 300.25), (100.25, 3900.5), (1900.0, 77.5), (1024.5, 2049.5)]
 HIST_CRVALS = [(10.25, 20.5), (359.9999999, -45.0), (123.0, 89.9)]
 
 
@@ -394,8 +397,8 @@ def hist_header(hk, hidx):
     return L.realistic_header(rng, hk, crval=HIST_CRVALS[hidx % len(HIST_CRVALS)], crpix=(1000.5 + 37 * hidx, 2100.25))
 
 
-def _hist_call(w, call, sky):
-    px, py = HIST_P
+def _hist_call(w, call, pix, sky):
+    px, py = pix
     if call == "i2s_d":
         return w.image2sky(px, py, distort=True)
     if call == "i2s_n":
@@ -415,16 +418,29 @@ def _try(f):
 
 
 _FRESH = {}
+_SKIES = {}
 
 
-def _fresh(hk, hidx, call):
-    key = (hk, hidx, call)
+def _hist_sky(hk, hidx, k):
+    """the sky target of step k: where a TAN header with the same linear part puts HIST_SKYPIX[k] (the header kinds
+    share CRVAL / CRPIX / CD up to the seed, any sky position inside the image serves)"""
+    key = (hk, hidx, k)
+    if key not in _SKIES:
+        hdr = dict(hist_header(hk, hidx))
+        hdr = {kk: v for kk, v in hdr.items() if not kk.startswith(("pv", "a_", "b_", "ap_", "bp_"))}
+        hdr["ctype1"], hdr["ctype2"] = "RA---TAN", "DEC--TAN"
+        _SKIES[key] = tuple(float(v) for v in _wcs().WCS(hdr).image2sky(*HIST_SKYPIX[k]))
+    return _SKIES[key]
+
+
+def _fresh(hk, hidx, call, k):
+    key = (hk, hidx, call, k)
     if key not in _FRESH:
         W = _wcs().WCS
         hdr = hist_header(hk, hidx)
-        sky = tuple(float(v) for v in W(hdr).image2sky(*HIST_Q))
-        a = _try(lambda: _hist_call(W(hdr), call, sky))
-        b = _try(lambda: _hist_call(W(hdr), call, sky))
+        sky = _hist_sky(hk, hidx, k)
+        a = _try(lambda: _hist_call(W(hdr), call, HIST_PIX[k], sky))
+        b = _try(lambda: _hist_call(W(hdr), call, HIST_PIX[k], sky))
         if a[0] != b[0] or (a[0] == "ok" and [v.tobytes() for v in a[1]] != [v.tobytes() for v in b[1]]) or (a[0] == "exc" and a != b):
             raise MachineryError("two fresh objects disagree on %s: %s %s" % (key, a, b))
         _FRESH[key] = (a, sky)
@@ -432,6 +448,7 @@ def _fresh(hk, hidx, call):
 
 
 def _hist_rel(call, got, want):
+    """same: bit-identical (or the same exception class); close: within the tolerance the statement grants the call"""
     if got[0] != want[0]:
         return "diff"
     if got[0] == "exc":
@@ -450,9 +467,9 @@ def obs_history(args):
     try:
         with np.errstate(all="ignore"):
             w = W(hist_header(hk, hidx))
-            for call in calls:
-                want, sky = _fresh(hk, hidx, call)
-                got = _try(lambda: _hist_call(w, call, sky))
+            for k, call in enumerate(calls):
+                want, sky = _fresh(hk, hidx, call, k)
+                got = _try(lambda: _hist_call(w, call, HIST_PIX[k], sky))
                 steps.append({"call": call, "rel": _hist_rel(call, got, want)})
     finally:
         cm.__exit__(None, None, None)
@@ -502,7 +519,8 @@ def signature(r, clause):
         dist = "distorted" if c["distorted"] else "tan"
         if clause.startswith("unexpected_error"):
             if x_.get("stage") == "construct":
-                return "WCS()|%s|%s" % (clause, c["hk"])
+                nokeys = c["hk"] == "SIP" and "ap_order" not in x_.get("hdr", {"ap_order": 0})
+                return "WCS()|%s|%s%s" % (clause, c["hk"], ",no_inverse_keys" if nokeys else "")
             if x_.get("stage") == "image2sky":
                 return "image2sky|%s|%s,distort=%s" % (clause, {"TANPV": "TANPV"}.get(c["hk"], c["hk"]), c["distort"])
             return "sky2image|%s|%s,find=%s,distort=%s" % (clause, c["hk"], c["find"], c["distort"])
@@ -513,7 +531,7 @@ def signature(r, clause):
         entry = {"i2s": "image2sky", "s2i_r": "sky2image(find=True)", "s2i_p": "sky2image(find=False)", "jac": "get_jacobian"}[c["call"]]
         return "%s|%s|%s,dtype=%s" % (entry, clause, "distorted" if c["distorted"] else "tan", c["dtype"])
     if k == "history":
-        bad = sorted({s["call"] for s in o["steps"] if s["rel"] == "diff"})
+        bad = sorted({s["call"] for s in o["steps"] if s["rel"] != "same"})
         return "history|%s|%s,%s" % (clause, c["hk"], "+".join(bad))
     return "%s|%s" % (k, clause)
 
@@ -662,7 +680,7 @@ def run(ctx):
                               ("pinned find/distort dispatch violates S2IDispatchRefines", dict(Repaired=False), "S2IDispatchRefines"),
                               ("a wrong scamp map violates MechRefines", dict(PVMapVariant="pv2_as_pv1"), "MechRefines")):
             r = ctx.tlc("WcsMC.tla", what="self-test: " + nm, cfg_text=cfg(constants=dict(small, **over), init="InitC", next_="NextC", invariants=[inv]),
-                        workers=4, allow_violation=True, coverage=False)
+                        workers=1, allow_violation=True, coverage=False)
             if inv not in r.violated:
                 raise MachineryError("self-test failed: %s" % nm)
         cases = _export(ctx, consts, "export class and reference-pixel cases", "InitC", "NextC")
@@ -771,7 +789,7 @@ def run(ctx):
         for variant in ("warm_start", "stale_inverse"):
             r = ctx.tlc("WcsMC.tla", what="self-test: %s object violates HistoryIndependent" % variant,
                         cfg_text=cfg(constants=dict(consts, HistVariant=variant, MaxHist=3), init="InitH", next_="NextH", invariants=["HistoryIndependent"]),
-                        workers=4, allow_violation=True, coverage=False)
+                        workers=1, allow_violation=True, coverage=False)
             if "HistoryIndependent" not in r.violated:
                 raise MachineryError("self-test failed: %s variant not caught" % variant)
         ctx.log("replaying histories")
@@ -815,9 +833,12 @@ def run(ctx):
             st = [dict(s) for s in p["o"]["steps"]]
             st[-1]["rel"] = "diff"
             corrupt.append(({"id": 7, "kind": "history", "c": p["c"], "o": {"steps": st}}, "result_depends_on_history"))
+            st = [dict(s) for s in p["o"]["steps"]]
+            st[0]["rel"] = "close"          # different bits within the tolerance: still a dependence on the history
+            corrupt.append(({"id": 8, "kind": "history", "c": p["c"], "o": {"steps": st}}, "result_depends_on_history"))
         originals = [{"id": 100 + i, "kind": probe[k]["kind"], "c": probe[k]["c"], "o": probe[k]["o"]}
                      for i, k in enumerate(sorted(probe)) if probe[k]]
-        if len(corrupt) < 7:
+        if len(corrupt) < 8:
             raise MachineryError("binding self-test: no accepted record of some kind to corrupt (%s)" % sorted(k for k in probe if probe[k]))
         saved = ctx.traces
         rej = tracecheck.validate(ctx, "WcsTrace.tla", [c for c, _ in corrupt] + originals, what="self-test: corrupted records rejected", workers=1)
@@ -844,7 +865,7 @@ def run(ctx):
         "PV coefficient sets are complete (scamp style: every supported key present, PVi_1 = 1); radial PV terms (PVi_3, PVi_11) are outside the supported order",
         "equality with the FITS reference at arbitrary pixels is decided through class equivalence with a pure-TAN header plus exact anchors; the arctan / rotation numerics between anchors and the accuracy of the fitted inverse polynomial (find=False) are not decided (finite only)",
         "separations are great-circle separations (a longitude difference counts with cos(latitude)); CRVAL2 = +90 exactly: LONPOLE 180 (documented default) and the FITS default 0 both accepted",
-        "history independence: bit-identical or within the tolerance the statement grants the call (1e-9 degree, 1e-6 pixel)",
+        "history independence is demanded bit for bit (used object vs fresh object, same deterministic code, same arguments; two fresh objects are first checked to agree)",
     ]
     ctx.trusted_base = ctx.trusted_base + ["long-double great-circle separation kernel (validated on the lattice every run)",
                                            "float(Fraction) on dyadic lattice values (checked exact), one correctly rounded gnomonic radius per anchor"]
